@@ -74,3 +74,30 @@ Theorem C04_order_whole_impl : forall d l' impls,
     exists impls', mapM (expand_impl (set_trait_attrs d l')) (impl_contexts (set_trait_attrs d l')) = Ok impls' /\ Permutation impls impls'.
 Proof. exact reordered_instructions_permute_the_impls. Qed.
 Print Assumptions C04_order_whole_impl.
+
+(* the counterpart in the header is the path the instruction names: leading `::`, every segment, then the arguments of the last
+   segment (`#dst #those_gens`), for every path (Lemmas/Counterpart.v) *)
+From O2o.Lemmas Require Import Generics Counterpart.
+
+Theorem C04_counterpart_prints_back : forall p, tp_written (type_path_of_path p) = print_path p.
+Proof. exact type_path_prints_back. Qed.
+Print Assumptions C04_counterpart_prints_back.
+
+Theorem C04_header_names_the_counterpart : forall d c,
+    In c (impl_contexts d) ->
+    (if is_from (c_kind c) then c_src c else c_dst c) = tp_path (c_ty c) /\
+    (if is_from (c_kind c) then c_dst c else c_src c) = [TIdent (dt_ident d)].
+Proof. exact header_names_the_counterpart. Qed.
+Print Assumptions C04_header_names_the_counterpart.
+
+Theorem C04_header_counterpart_env : forall t c,
+    env_get (trait_env t c) "dst" = c_dst c /\ env_get (trait_env t c) "src" = c_src c /\
+    env_get (trait_env t c) "those_gens" = angle_toks (tp_generics (c_ty c)).
+Proof. exact header_counterpart_env. Qed.
+Print Assumptions C04_header_counterpart_env.
+
+Theorem C04_error_type_prints_back : forall c e en,
+    tc_err (c_core c) = Some e -> err_env c = Ok en ->
+    env_get en "err_ty" ++ env_get en "err_gens" = tp_written e.
+Proof. exact error_type_prints_back. Qed.
+Print Assumptions C04_error_type_prints_back.
